@@ -49,7 +49,7 @@ def seq_to_list(v):
 def _solve_one(job):
     name, smt2, input_names, timeout_s, use_cvc5 = job
     t0 = time.time()
-    first = min(timeout_s, 8) if use_cvc5 else timeout_s
+    first = min(timeout_s, 4) if use_cvc5 else timeout_s
     res = _z3_once(name, smt2, input_names, first)
     if res["result"] == "unknown" and use_cvc5:
         r2 = run_cvc5(smt2, timeout_s)
